@@ -111,7 +111,13 @@ pub fn judge(prop: Prop, bytes: &[u8], observed: &PRes<String>, nt: NonTrivial, 
 /// `messages::parse(bytes)` against the reference.
 pub fn check_bytes(prop: Prop, cfg: &'static dyn Config, bytes: &[u8], nt: NonTrivial, rec: &mut Rec) -> Verdict {
     if cfg.name() == "none" && crate::props::c18::decode_exceeds(bytes) {
-        return Verdict::Excluded("above a fixed capacity of the no-allocator build (C18 decides those)");
+        // above a fixed capacity the no-allocator build may only reject: a value here would be a
+        // truncated one (this is C18's clause; it costs nothing to hold it wherever such input occurs)
+        return match cfg.parse_msg(bytes) {
+            crate::outcome::PRes::Ok(s) => Verdict::fail("an error: the message exceeds a fixed capacity of the no-allocator build (119 data bytes / 20 text characters), which must reject, never truncate", crate::util::clip(&s, 300)),
+            crate::outcome::PRes::Panic(m) => Verdict::fail("an error value", format!("panic: {}", m)),
+            crate::outcome::PRes::Err(_) => Verdict::Excluded("above a fixed capacity of the no-allocator build: rejected, as it must be"),
+        };
     }
     let obs = cfg.parse_msg(bytes);
     judge(prop, bytes, &obs, nt, rec)
@@ -168,11 +174,68 @@ pub fn check_sentence_path(prop: Prop, cfg: &'static dyn Config, chars: &[u8], f
     judge(prop, &bytes, &obs, nt, rec)
 }
 
+/// The payload travels in ONE sentence on a parser that has already processed `prefix`. What the
+/// message decodes to is a function of that sentence's own payload (the first six bits decide the
+/// kind, every field is the bits at its position), whatever the parser saw before. The carrier is
+/// either an unfragmented sentence, or one whose numbering the parser accepts as closing without an
+/// open group to continue (k = 1 with n = 0): if such a line is accepted as Complete, its decoded
+/// message must still be its own payload's.
+pub fn check_after_history(prop: Prop, cfg: &'static dyn Config, prefix: &[crate::engine::Line], n: u8, k: u8, id: Option<u8>, chars: &[u8], fill: u8, nt: NonTrivial, rec: &mut Rec) -> Verdict {
+    if chars.is_empty() || chars.iter().any(|&c| c == b',' || c == b'*') {
+        return Verdict::Excluded("sentence path needs a non-empty payload field without ',' or '*'");
+    }
+    if k != 1 || n >= 2 {
+        return Verdict::Excluded("carrier numbering must be k = 1 with n = 1 or n = 0");
+    }
+    if cfg.name() == "none" && (chars.len() > 384 || crate::props::hist::exceeds_noalloc_capacity(prefix)) {
+        return Verdict::Excluded("payload above the no-allocator capacity (C18's business)");
+    }
+    let bytes = match armor::unarmor(chars, fill as usize) {
+        Some(b) => b,
+        None => return Verdict::Excluded("payload characters outside the armouring alphabet"),
+    };
+    if cfg.name() == "none" && crate::props::c18::decode_exceeds(&bytes) {
+        return Verdict::Excluded("above a fixed capacity of the no-allocator build (C18 decides those)");
+    }
+    let mut p = cfg.new_parser();
+    for l in prefix {
+        if let Outcome::Panic(m) = p.parse(&l.bytes, l.decode) {
+            return Verdict::fail("a result or an error value for every line of the prefix", format!("panic: {}", m));
+        }
+    }
+    let line = build::line(n as u32, k as u32, id.map(|x| x as u32), b"A", chars, fill as u32);
+    let out = p.parse(&line, true);
+    rec.class(if n == 1 { "after-history:unfragmented" } else { "after-history:closing-line-without-group" });
+    let obs: PRes<String> = match out {
+        Outcome::Complete(s) => {
+            // a line with fragment number 1 continues nothing: whatever the parser held, the message
+            // handed out with this line must be the decoding of this line's own payload (judged below)
+            if s.data != chars {
+                rec.class("after-history:data-differs-from-own-payload");
+            }
+            match s.message {
+                Some(m) => PRes::Ok(m),
+                None => return Verdict::fail("a decoded message (decode = true)", "Complete with message = None"),
+            }
+        }
+        Outcome::Incomplete(_) => return Verdict::Excluded("the carrier line was taken as a non-final fragment"),
+        Outcome::Err(e) => {
+            if n != 1 {
+                return Verdict::Excluded("the carrier line was rejected by the sequencing rules");
+            }
+            PRes::Err(e)
+        }
+        Outcome::Panic(m) => PRes::Panic(m),
+    };
+    judge(prop, &bytes, &obs, nt, rec)
+}
+
 /// Dispatch on the input kinds the payload-level properties use.
 pub fn check_input(prop: Prop, cfg: &'static dyn Config, input: &Input, nt: NonTrivial, rec: &mut Rec) -> Verdict {
     match input {
         Input::Payload { bytes } => check_bytes(prop, cfg, bytes, nt, rec),
         Input::SentPayload { chars, fill, cuts } => check_sentence_path(prop, cfg, chars, *fill, cuts, nt, rec),
+        Input::SentAfter { prefix, n, k, id, chars, fill } => check_after_history(prop, cfg, prefix, *n, *k, *id, chars, *fill, nt, rec),
         _ => crate::engine::infra_error("payload-level check got an input of the wrong kind"),
     }
 }
